@@ -3296,6 +3296,8 @@ The what argument tells us what sort of state is expected (allowed values are de
                         print("Please answer y, n, q, or !, not %s" % yn, file=utils.stderr)
 
                 if yn == "n":
+                    if product.name == productName and product.version == versionName:
+                        return          # the rest was collected (and excused by the in-use check) because this one was to go
                     continue
 
             if not self.undeclare(product.name, product.version):
